@@ -36,6 +36,8 @@ type compiler struct {
 	inCheck bool
 	// exec stands for the execution (Template.Exec) this evaluator is part of
 	exec *execution
+	// writing counts the values being written inside each other
+	writing int
 	// pending is a break or continue that the block of a helper called by
 	// the statement being evaluated has run into. It belongs to this
 	// evaluator alone and does not outlive the statement.
@@ -61,6 +63,9 @@ func (e *execution) enter() (leave func(), err error) {
 	}
 	return func() { e.depth.Add(-1) }, nil
 }
+
+// maxWriteDepth is how deep the values that are written may be nested.
+const maxWriteDepth = 100000
 
 // blockSignal is how the block of one helper call tells that call's
 // evaluator about a break or continue. Every call has its own: a stored
@@ -137,6 +142,15 @@ func (c *compiler) compile() (string, error) {
 }
 
 func (c *compiler) write(bb *strings.Builder, i interface{}) {
+	// values inside values inside values: a value that keeps producing
+	// itself (an Interface method that returns a list holding the value)
+	// would go on until the stack is used up
+	if c.writing >= maxWriteDepth {
+		return
+	}
+	c.writing++
+	defer func() { c.writing-- }()
+
 	// A nil pointer prints what its own methods make of it: nothing when
 	// they are implemented on the value type (calling them panics, see
 	// textOf), their text when they expect a nil receiver.
